@@ -9,6 +9,8 @@ mod o_wire;
 mod o_star;
 mod s_ggm;
 mod o_ggm;
+mod s_ppoprf;
+mod o_ppoprf;
 
 fn main() {
   let args: Vec<String> = std::env::args().collect();
@@ -29,6 +31,10 @@ fn main() {
     "star" => s_star::star(tier, seed),
     "wire" => s_star::wire(tier, seed),
     "ggm" => s_ggm::ggm(tier, seed),
+    "scalar" => s_ppoprf::scalar(tier, seed),
+    "ristretto" => s_ppoprf::ristretto(tier, seed),
+    "ppoprf" => s_ppoprf::ppoprf(tier, seed),
+    "server" => s_ppoprf::server(tier, seed),
     w if w.starts_with("oracle:") => oracle::run(&w[7..], tier, seed),
     _ => {
       eprintln!("unknown stream {}", what);
